@@ -138,6 +138,52 @@ def jsondict_shape(ctx):
     return ctx.done(ok, sorted(d.keys()))
 
 
+def special_values(ctx, via):
+    """non-finite floats in values, labels and metadata survive the text form"""
+    inf = float('inf')
+    vals = [1.5, inf, -inf, float('nan')]
+    labels = [[-inf, 0.5]] + [[1, 2]]
+    a = ctx.mk(['x', 'y'], labels, vals, lkinds=['f', 'i'], attrs={'lo': -inf, 'hi': inf, 'nn': float('nan'), 'name': 'n'})
+    if via == 'json':
+        r = ctx.call(lambda: ctx.da.DimArray.from_json(a.to_json()))
+    else:
+        r = ctx.call(lambda: ctx.da.DimArray.from_jsondict(a.to_jsondict()))
+    if r[0] != 'ok':
+        return ctx.done(False, r[1])
+    b = r[1]
+    ok = ctx.AND(same(ctx, b, Ref(['x', 'y'], labels, vals)), b.attrs.get('lo') == -inf, b.attrs.get('hi') == inf, ctx.isnan(b.attrs.get('nn')), b.attrs.get('name') == 'n')
+    return ctx.done(ok, ctx.observe(b))
+
+
+def jsondict_reuse(ctx):
+    """the dict returned by to_jsondict can be read more than once (from_jsondict does not consume it)"""
+    labels = [ctx.labels('i', 2, 'lx'), ctx.labels('U', 2, 'ly')]
+    cells = ctx.cells('f', 4, 'v')
+    a = ctx.mk(['x', 'y'], labels, cells, lkinds=['i', 'U'], attrs={'units': 'K'})
+    d = a.to_jsondict()
+    keys = sorted(d.keys())
+    b1 = ctx.call(lambda: ctx.da.DimArray.from_jsondict(d))
+    b2 = ctx.call(lambda: ctx.da.DimArray.from_jsondict(d))
+    ref = Ref(['x', 'y'], labels, cells)
+    ok = ctx.AND(b1[0] == 'ok' and same(ctx, b1[1], ref), b2[0] == 'ok' and same(ctx, b2[1], ref), sorted(d.keys()) == keys,
+                 b1[0] == 'ok' and b1[1].attrs.get('units') == 'K' and b2[0] == 'ok' and b2[1].attrs.get('units') == 'K')
+    return ctx.done(ok, [keys, sorted(d.keys())])
+
+
+def text_options(ctx, opts):
+    """formatting options of to_json (passed to json.dumps) never change the content; strings with blanks and brackets are data.
+    (The symbolic run uses the channel stub, which ignores formatting; this template is decided by its real-stack replay.)"""
+    labels = [['New York', 'a [b c] d'], [10, 20]]
+    vals = ['x y', '[1, 2]', 'p  q', '']
+    a = ctx.mk(['city name', 'n'], labels, vals, lkinds=['U', 'i'], kind='O', attrs={'note': 'two  blanks [ and ] brackets', 'tags': ['a b', 'c']})
+    r = ctx.call(lambda: ctx.da.DimArray.from_json(a.to_json(**opts)))
+    if r[0] != 'ok':
+        return ctx.done(False, r[1])
+    b = r[1]
+    ok = ctx.AND(same(ctx, b, Ref(['city name', 'n'], labels, vals)), b.attrs.get('note') == 'two  blanks [ and ] brackets', b.attrs.get('tags') == ['a b', 'c'])
+    return ctx.done(ok, ctx.observe(b))
+
+
 def templates():
     ts = []
 
@@ -160,4 +206,9 @@ def templates():
     for dims in (['values', 'x'], ['T', 'size'], ['mean', 'axes'], ['dims', 'labels'], ['item', 'loc']):
         add('rt-dims-%s' % '-'.join(dims), 'roundtrip', cost=0.2, shape=[2, 2], lkinds=['i', 'i'], dims=dims, nan=False)
     add('jsondict-shape', 'jsondict_shape', cost=0.2)
+    for via in ('json', 'jsondict'):
+        add('special-values-%s' % via, 'special_values', cost=0.2, via=via)
+    add('jsondict-reuse', 'jsondict_reuse', cost=0.2)
+    for k, opts in enumerate(({}, {'indent': 2}, {'indent': 0}, {'sort_keys': True}, {'indent': 4, 'sort_keys': True}, {'separators': (', ', ': ')}, {'indent': 1, 'separators': (',', ':')})):
+        add('text-options-%d' % k, 'text_options', cost=0.2, opts=opts)
     return ts
